@@ -36,7 +36,7 @@ fn any_addr() -> SocketAddrV4 {
 fn c15_o1_validate_matches_reference() {
     let mut t = any_tokens_at(0);
     let a = any_addr();
-    let tok: [u8; 5] = kani::any();
+    let tok: [u8; 5] = kani::env();
     let len: usize = kani::any();
     kani::assume(len <= 5);
     let mut buf = [0u8; 24];
